@@ -15,14 +15,14 @@ from sx import Str, Sym
 PROP = "C20"
 LEVEL = "other"
 PROP_FILE = "C20_NoPanic"
-THEOREMS = ["c20_levenshtein_no_panic", "c20_fuzzy_search_no_panic", "c20_fuzzy_search_candidate", "c20_fuzzy_fold_minimal", "c20_wildcard_no_panic",
-            "c20_wildcard_refines", "c20_ip_in_range_no_panic", "c20_ip_prefix_bound", "c20_ip_prefix_needed",
+THEOREMS = ["c20_levenshtein_no_panic", "c20_levenshtein_refines", "c20_fuzzy_search_no_panic", "c20_fuzzy_search_candidate", "c20_fuzzy_fold_minimal", "c20_wildcard_no_panic",
+            "c20_wildcard_refines", "c20_contains_two_no_panic", "c20_ip_strings_no_panic", "c20_ip_in_range_no_panic", "c20_ip_prefix_bound", "c20_ip_prefix_needed",
             "c20_display_extn_no_panic", "c20_display_extn_old_refuted",
             "c20_policyset_core_no_panic", "c20_policyset_history_no_panic"]
 
 MANIFEST = {
     "category": "other",
-    "text": "Partial by nature. Proof part (props/C20_NoPanic.v, 13 theorems, no axioms): index-level transcriptions of four functions whose panic freedom rests on invariants asserted only in prose (fuzzy_match levenshtein_distance/fuzzy_search_limited, Pattern::wildcard_match, IPAddr::is_in_range, est display of __extn calls) with every slice index, unsigned subtraction and shift made an explicit Panic outcome; theorems: no input reaches a Panic (plus: the index-level wildcard loop computes the declarative matcher of C02; the ip parser establishes the prefix bound the subtraction needs; the pre-fix display code panicked exactly on method-style calls without arguments). These transcriptions are run against the implementation on generated inputs every run (site_correspondence in the evidence). Everything else is exploration, labelled as such: all text/JSON/protobuf/FFI entry points are driven with valid, structure-mutated and byte-mutated documents through the pipelines parse -> {print, to_json, format, validate, authorize, link, encode} with every error rendered, under catch_unwind, in subprocesses so that aborts are seen too.",
+    "text": "Partial by nature. Proof part (props/C20_NoPanic.v, 16 theorems, no axioms): index-level transcriptions of four functions whose panic freedom rests on invariants asserted only in prose (fuzzy_match levenshtein_distance/fuzzy_search_limited, Pattern::wildcard_match, IPAddr::is_in_range and the byte-level slicing of the ip parser's contains_at_least_two, est display of __extn calls) with every slice index, unsigned subtraction and shift made an explicit Panic outcome; theorems: no input reaches a Panic (plus: the index-level wildcard loop computes the declarative matcher of C02; the Levenshtein matrix loops compute the Wagner-Fischer recurrence; the ip parser establishes the prefix bound the subtraction needs; the pre-fix display code panicked exactly on method-style calls without arguments). These transcriptions are run against the implementation on generated inputs every run (site_correspondence in the evidence). Everything else is exploration, labelled as such: all text/JSON/protobuf/FFI entry points are driven with valid, structure-mutated and byte-mutated documents through the pipelines parse -> {print, to_json, format, validate, authorize, link, encode} with every error rendered, under catch_unwind, in subprocesses so that aborts are seen too.",
     "technique": "Coq lemmas for panic-site invariants of modelled functions + runtime exploration (structure-aware and byte-level mutation) under catch_unwind",
     "note": "The exploration part is not a proof and is labelled as such in the evidence (level other).",
 }
@@ -342,7 +342,10 @@ IDENTS = ["principal", "Principal", "resource", "action", "context", "User", "Us
           "owner", "ownr", "owners", "naïve", "größe", "café", "名前", "名", "😀x", "ns::User", "NS::Usr", "a", "ab", "ba", ""]
 IP_STRS = ["0.0.0.0/0", "10.1.2.3", "10.0.0.0/8", "255.255.255.255/32", "127.0.0.1/31", "192.168.0.1/33", "1.2.3.4/032",
            "::/0", "::1", "::1/128", "ff00::/8", "1:2:3:4::", "1:2:3:4::/64", "ffff:ffff:ffff:ffff:ffff:ffff:ffff:ffff/127",
-           "::/129", "::ffff:1.2.3.4", "1.2.3.4/", "/8", "1.2.3/8", "10.1.2.3/1", "128.0.0.0/1", "fe80::1/10"]
+           "::/129", "::ffff:1.2.3.4", "1.2.3.4/", "/8", "1.2.3/8", "10.1.2.3/1", "128.0.0.0/1", "fe80::1/10",
+           # multi-byte characters around ':' and '.' (byte offsets of the slicing in contains_at_least_two)
+           "\u00e9:\u00e9:1.2.3", "1.2.3.4:\u00e9", "::\u4e2d::1.1", "\U0001F600.\U0001F600.:", ":\U0001F600:", ".\u00e9.", "\u00e9:", ":\u00e9",
+           "1:2::3.4\u00e9", "\u4e2d\u4e2d\u4e2d\u4e2d\u4e2d\u4e2d\u4e2d\u4e2d\u4e2d\u4e2d\u4e2d\u4e2d\u4e2d\u4e2d:.:."]
 EXTN_FNS = ["decimal", "ip", "datetime", "duration", "isIpv4", "isIpv6", "isLoopback", "isMulticast", "isInRange", "lessThan",
             "lessThanOrEqual", "greaterThan", "greaterThanOrEqual", "offset", "durationSince", "toDate", "toTime",
             "toMilliseconds", "toSeconds", "toMinutes", "toHours", "toDays", "nosuchfn", "isipv4"]
